@@ -80,8 +80,8 @@ def sync_files(src_files, dst_files, opts, conflicts, subdir="", extra_exclude=(
             elif recursive:
                 for r, f in src_files.items():
                     if r.startswith(rel + "/"):
-                        # files matching an exclude pattern are never created (C15)
-                        if not excluded(r.rsplit("/", 1)[-1], patterns):
+                        # entries (files and directories) matching an exclude pattern are never created (C15)
+                        if not any(excluded(part, patterns) for part in r[len(rel) + 1:].split("/")):
                             dst_files[r] = (f[0], None)
         elif kind == "f" and d_ch[name] == "f":
             if excluded(name, patterns):
@@ -159,7 +159,7 @@ def clone_job(src_job, opts):
     """A newly cloned job: everything except files matching an exclude pattern."""
     patterns = list(opts.get("exclude") or [])
     files = {r: (f[0], None) for r, f in src_job["files"].items()
-             if not excluded(r.rsplit("/", 1)[-1], patterns)}
+             if r in (SP_FILE, DOC_FILE) or not any(excluded(part, patterns) for part in r.split("/"))}
     return {"sp": copy.deepcopy(src_job["sp"]), "doc": copy.deepcopy(src_job["doc"]), "files": files}
 
 
